@@ -867,8 +867,16 @@ static iwrc _fsm_blk_deallocate_lw(
     right = lfbkoff + fsm->lfbklen;
     hasright = 1;
   } else {
-    uint64_t maxoff = lfbkoff ? lfbkoff : (fsm->bmlen << 3);
+    /* The cached extent is not necessarily the one with the largest offset
+       (the cache is dropped by `_fsm_del_fbk2` and refilled by the next `_fsm_put_fbk`),
+       so it cannot bound the scan: look up to the end of the bitmap. */
+    uint64_t maxoff = (fsm->bmlen << 3);
     right = _fsm_find_next_set_bit(bmptr, end_offset_blk, maxoff, &hasright);
+    if (!hasright && (end_offset_blk < maxoff)) {
+      /* No allocated block behind us: the free tail of the bitmap is the right neighbour */
+      right = maxoff;
+      hasright = 1;
+    }
   }
 
   if (hasleft) {
